@@ -1132,8 +1132,14 @@ class System:
             avals = [-self.dae.gy[int(idx), int(idx)] + self.config.diag_eps for idx in aidx]
             vvals = [-self.dae.gy[int(idx), int(idx)] + self.config.diag_eps for idx in vidx]
 
+            # cancel the cross terms between `a` and `v` as done by the in-place branch
+            avvals = [-self.dae.gy[int(ia), int(iv)] for ia, iv in zip(aidx, vidx)]
+            vavals = [-self.dae.gy[int(iv), int(ia)] for ia, iv in zip(aidx, vidx)]
+
             self.dae.gy += spmatrix(avals, aidx, aidx, self.dae.gy.size, 'd')
             self.dae.gy += spmatrix(vvals, vidx, vidx, self.dae.gy.size, 'd')
+            self.dae.gy += spmatrix(avvals, aidx, vidx, self.dae.gy.size, 'd')
+            self.dae.gy += spmatrix(vavals, vidx, aidx, self.dae.gy.size, 'd')
 
     def store_sparse_pattern(self, models: OrderedDict):
         """
